@@ -94,6 +94,14 @@ CLAIMED = {
             'fires nothing; connectionLost fails every pending deferred once with a connection error and later requests fail at once; FIFO variant pairs in arrival order.',
             'Bounded in the NUMBER of other outstanding requests (<= 3; the untouched entries are symmetric). twisted Deferred / defer.fail / Failure are external '
             '(ghost firing log). One known finding (tid reuse after wrap while still pending).', 'contract-based deductive verification (pyvc VC generation from /repo AST + z3/cvc5)', 'DESIGN.md section 4 C16'),
+    'C07': ('proof', 'Gate obligation per framer from an ARBITRARY framer state (any buffer, any header; the first loop iteration from an arbitrary state is the '
+            'arbitrary iteration): whenever the callback receives a message, it is the one the decoder made from exactly the PDU bytes of a frame in the buffer '
+            'whose integrity check holds - RTU/binary: bit-level CRC-16 of unit+PDU equals the following two bytes (low byte first); ASCII: colon/CRLF envelope, '
+            'every unit/PDU character a hex digit, LRC of the decoded bytes equals the LRC field; TCP: MBAP length >= 2 and exactly length-1 PDU bytes present. '
+            'computeCRC/computeLRC are themselves proved equal to the bit-level specs. Two known findings (socket raw-buffer delivery, ASCII LRC field parsed by int()).',
+            'Which corruptions CHANGE a CRC-16/LRC is a property of the specified checksum (not proved). RTU size oracle abstracted to any value >= 4. '
+            'The stub decoder stands for both decoders (returns a message, None or raises). A1-A10; z3/cvc5.',
+            'contract-based deductive verification (pyvc VC generation from /repo AST + z3/cvc5)', 'DESIGN.md section 4 C07'),
 }
 NOT_YET = 'check not built yet at this commit (planned: contract-based, see DESIGN.md section 4)'
 ALL = ['C%02d' % i for i in range(1, 21)]
